@@ -18,6 +18,14 @@ pub(crate) mod common {
 pub(crate) mod fuzzy {
     include!(concat!(env!("NUCLEO_VERIF_DIR"), "/matcher/fuzzy.rs"));
 }
+#[allow(dead_code, unused_imports, unused_macros, unused_variables, unused_assignments, unexpected_cfgs)]
+pub(crate) mod chars_h {
+    include!(concat!(env!("NUCLEO_VERIF_DIR"), "/matcher/chars_h.rs"));
+}
+#[allow(dead_code, unused_imports, unused_macros, unused_variables, unused_assignments, unexpected_cfgs)]
+pub(crate) mod exact_h {
+    include!(concat!(env!("NUCLEO_VERIF_DIR"), "/matcher/exact_h.rs"));
+}
 #[cfg(not(kani))]
 #[allow(dead_code, unused_imports, unused_macros, unused_variables, unused_assignments, unexpected_cfgs)]
 pub(crate) mod replay {
